@@ -151,8 +151,19 @@ def save_rule(R, lib, consts):
             R.violation('R2', c, f.loc, 'kind value %d selects %d arms' % (consts['TZ.' + name], len(hits)))
             continue
         eff = {}
+        ra = _atom(_P(hits[0][1])) if hits[0][1] is not None else None
+        if ra is not None and ra[0] == 'init' and ra[1].endswith('TimeZoneData'):
+            # the record starts as what one of its constructors builds: the constructor body says which field gets which
+            # argument; the stores of the path come on top
+            ctors = [c_ for c_ in lib.funcs.get(TZD + '::TimeZoneData', []) if len(c_.params) == len(ra[2]) and c_.body is not None]
+            if ctors:
+                cs = SymExec(fold_global=lib.global_value).run(ctors[0].name, ctors[0].body, {p: _P(k) for (p, _t), k in zip(ctors[0].params, ra[2])})
+                if len(cs.paths) == 1:
+                    for tgt, val in cs.paths[0][3]:
+                        if tgt.startswith('this.'):
+                            eff[tgt[5:]] = val
         for tgt, val in hits[0][2]:
-            if tgt != 'call':
+            if tgt != 'call' and not tgt.startswith('local:'):
                 eff[tgt.split('.', 1)[1] if '.' in tgt else tgt] = val
         # normalise target names to d.<field>
         eff = {('d.' + k_): v for k_, v in eff.items()}
@@ -206,11 +217,13 @@ def equality_table(lib, f, fields, disc=None, disc_values=(None,), other=None):
     sx.bool_return = True
     sx.cmp_calls = {'ace_time::operator==': '==', 'ace_time::operator!=': '!='}
     summ = sx.run(f.name, f.body, {})
+    from .gnf import poly_leaves, arith_assign
     known = {('sym', '%s.%s' % (o, n)) for o in (a, b) for n in list(fields) + ([disc] if disc else [])}
     foreign = set()
     for g in summ.guards():
         for at in formula_atoms(g):
-            for x in _P(at[1]).atoms():
+            # leaves under comparison / negation terms count (a named boolean local holds such a term); calls do not
+            for x in poly_leaves(_P(at[1]), kinds=('sym', 'fn', 'opaque')):
                 if x not in known:
                     foreign.add(x)
     if foreign:
@@ -225,13 +238,14 @@ def equality_table(lib, f, fields, disc=None, disc_values=(None,), other=None):
             else:
                 combos = [tuple(0 for _ in range(2 * len(fl)))] + [tuple(1 if j == i else 0 for j in range(2 * len(fl))) for i in range(2 * len(fl))]
             for combo in combos:
-                env = {}
+                names = {}
                 for i, n in enumerate(fl):
-                    env[('sym', '%s.%s' % (a, n))] = combo[2 * i]
-                    env[('sym', '%s.%s' % (b, n))] = combo[2 * i + 1]
+                    names['%s.%s' % (a, n)] = combo[2 * i]
+                    names['%s.%s' % (b, n)] = combo[2 * i + 1]
                 if disc:
-                    env[('sym', '%s.%s' % (a, disc))] = dv
-                    env[('sym', '%s.%s' % (b, disc))] = db
+                    names['%s.%s' % (a, disc)] = dv
+                    names['%s.%s' % (b, disc)] = db
+                env = arith_assign(names)
                 hits = [p for p in summ.paths if eval_formula(p[0], env)]
                 res = None
                 if len(hits) == 1 and hits[0][1] == 'return' and hits[0][2] is not None and _P(hits[0][2]).is_const():
@@ -312,7 +326,10 @@ def manual_rule(R, lib, consts):
         f = lib.fn(TZ + '::' + name)
         c = '%s:manual' % f.name
         R.instance('R4', c, f.loc)
-        s = SymExec(fold_global=lib.global_value).run(f.name, f.body, {})
+        from .gnf import small_helper_inliner
+        sx4 = SymExec(fold_global=lib.global_value)
+        sx4.inliner = small_helper_inliner(lib, [TZ + '::'])
+        s = sx4.run(f.name, f.body, {})
         hits = select(s, 'this.mType', v)
         found = False
         for kind, res, eff in hits:
